@@ -768,6 +768,10 @@ class Repo:
                 for o in out:
                     if o['key'] == key:
                         o['guard_sets'].append(g)
+                        for a_, v_ in defs.items():
+                            lst = o['alts'].setdefault(a_, [])
+                            if canon(v_) not in [canon(x) for x in lst]:
+                                lst.append(v_)
                         # keep the definitions every compile path of this strategy agrees on; when
                         # they differ only in the arguments of the same constructor call, keep the
                         # constructor with opaque arguments (it is still "a struct.Struct")
@@ -781,7 +785,8 @@ class Repo:
                                 del o['defs'][a_]
                 continue
             seen.add(key)
-            out.append(dict(key=key, guards=g, guard_sets=[g], pack=cur['pack'], unpack=cur['unpack'], assigned=assigned, defs=defs))
+            out.append(dict(key=key, guards=g, guard_sets=[g], pack=cur['pack'], unpack=cur['unpack'], assigned=assigned, defs=defs,
+                            alts={a_: [v_] for a_, v_ in defs.items()}))
         # an attribute is a compile-time constant of the strategy only if nothing outside the
         # declaration / compile phase ever stores it
         late = self.runtime_stored_attrs(ci)
@@ -789,7 +794,22 @@ class Repo:
             for a_ in list(o['defs']):
                 if a_ in late:
                     del o['defs'][a_]
+            for a_ in list(o['alts']):
+                if a_ in late:
+                    del o['alts'][a_]
         return out
+
+    def strategy_alternatives(self, strat, attrs, limit=8):
+        """the ways the compile paths of one strategy define the attributes ``attrs``: a list of
+        {'self.attr': value} (one per combination of the values the paths give them)"""
+        import itertools
+        names = [a for a in sorted(attrs) if a in strat.get('alts', {})]
+        combos = [[]]
+        for a in names:
+            combos = [c + [(a, v)] for c in combos for v in strat['alts'][a]]
+            if len(combos) > limit:
+                return None
+        return [{'self.%s' % a: v for a, v in c} for c in combos]
 
     def runtime_stored_attrs(self, ci):
         """attribute names some method other than __init__ / _compile / _compile_impl / init-time
